@@ -256,8 +256,12 @@ class History:
         self.spec = gen_composite(tape, self.ncomp, self.has_w)
         self.guard = ArgGuard()
         self.pool = []
+        same_size = tape.coin(0.35, "pool.same_size")
+        n_fixed = None
         for i in range(3):
-            ds = gen_dataset(tape, ncomp=self.ncomp, nmin=30, nmax=60, allow_extra=False, weights=self.has_w, tag=f"D{i}")
+            ds = gen_dataset(tape, ncomp=self.ncomp, nmin=30, nmax=60, allow_extra=False, weights=self.has_w, tag=f"D{i}", n=n_fixed)
+            if same_size:
+                n_fixed = ds.n
             self._protect(ds)
             self.pool.append(ds)
         # the planted inconsistency: one NaN in component 0 (a later step may be the one that rejects it)
